@@ -988,6 +988,8 @@ var ColorNames = map[string]Color{
 	"wheat":                ColorWheat,
 	"whitesmoke":           ColorWhiteSmoke,
 	"yellowgreen":          ColorYellowGreen,
+	"cyan":                 ColorAqua,
+	"magenta":              ColorFuchsia,
 	"grey":                 ColorGray,
 	"dimgrey":              ColorDimGray,
 	"darkgrey":             ColorDarkGray,
